@@ -18,6 +18,10 @@ def kdec(s):
     return 3 if s == '' else int(s)
 
 
+class NoMoreRows(StopIteration):
+    """an application error class that happens to derive from StopIteration"""
+
+
 class EB(BaseException):
     """raised by the batch function in one batch out of three: a failure that is not an `Exception` (what a
     batch function re-raises when something it awaits was cancelled)"""
@@ -197,7 +201,8 @@ def run_real(cfg, ins, plan, make_batcher=None):
                     out.append(('act', now(), b, idx))
                     if act[0] == 'yield':
                         r = act[2]
-                        yield kenc(act[1]), (E(r[1]) if r[0] == 'err' else StopIteration('s') if r[0] == 'stop'
+                        yield kenc(act[1]), (E(r[1]) if r[0] == 'err' else
+                                             (StopIteration, NoMoreRows)[(b + idx) % 2]('s') if r[0] == 'stop'
                                              else tuple(r[1:]))
                     elif act[0] == 'raise':
                         raise (EB if act[1] % 3 == 1 else E)(act[1])
@@ -227,7 +232,8 @@ def run_real(cfg, ins, plan, make_batcher=None):
                 oc = ('exc', TYPEERROR)
             except RuntimeError as e:
                 # a StopIteration raised by the batch function cannot be set on a future as it is
-                oc = (('exc', e.__cause__.args[0]) if isinstance(e.__cause__, StopIteration) and e.__cause__.args
+                c = e.__cause__
+                oc = (('exc', TYPEERROR if c.args[0] == 's' else c.args[0]) if isinstance(c, StopIteration) and c.args
                       else ('exc', 'RuntimeError'))
             except asyncio.CancelledError:
                 oc = ('cancelled',)
@@ -549,8 +555,8 @@ def spec_outcome(script, keys, key):
             if k in seen or k not in keys:
                 return ('exc', KEYERROR), idx
             seen.add(k)
-            if r[0] == 'stop':
-                return ('exc', TYPEERROR), idx      # the refused answer fails everybody still unanswered, k included
+            if k == key and r[0] == 'stop':
+                return ('exc', TYPEERROR), idx      # a StopIteration instance reaches its caller wrapped in a RuntimeError
             if k == key:
                 return (('exc', r[1]) if r[0] == 'err' else ('ok',) + tuple(r[1:])), idx
         elif act[0] == 'raise':
